@@ -265,7 +265,7 @@ PROPS = {
         "assumptions": ["the statement's second sentence (the two file-system backends agree at the backend API) is decided per method and therefore for every operation sequence"],
         "not_decided": [
             "MemoryPathIO against the POSIX outcome specification: only the bounded differential rt/c18_rt.py (all single operations, random sequences of 2-3 operations over an 8-path universe, MemoryPathIO vs PathIO on a temporary directory) — labelled bounded",
-            "the Lister classes of the backends (glob iteration) are not under contract",
+            "the Lister classes of PathIO/AsyncPathIO are under contract for the first two steps of a directory scan (PathIO-vs-AsyncPathIO.list); MemoryPathIO's lister is compared with the disk only by rt/c18_rt.py",
             "real disks, permissions, case-insensitive file systems",
         ],
         "explanation": "",
